@@ -819,3 +819,115 @@ func parseSchemaTable(schema, table string) ([]ColDef, error) {
 	}
 	return cols, nil
 }
+
+// schemaTableParts returns the comma-separated parts (column definitions and table constraints) of CREATE TABLE <table>.
+func schemaTableParts(schema, table string) ([]string, bool) {
+	low := strings.ToLower(schema)
+	idx := -1
+	for _, cand := range []string{"create table " + strings.ToLower(table) + " ", "create table " + strings.ToLower(table) + "("} {
+		if i := strings.Index(low, cand); i >= 0 {
+			idx = i
+			break
+		}
+	}
+	if idx < 0 {
+		return nil, false
+	}
+	open := strings.Index(schema[idx:], "(")
+	depth, end := 0, -1
+	for i := idx + open; i < len(schema); i++ {
+		if schema[i] == '(' {
+			depth++
+		} else if schema[i] == ')' {
+			depth--
+			if depth == 0 {
+				end = i
+				break
+			}
+		}
+	}
+	if end < 0 {
+		return nil, false
+	}
+	body := schema[idx+open+1 : end]
+	for {
+		a := strings.Index(body, "/*")
+		if a < 0 {
+			break
+		}
+		b := strings.Index(body[a:], "*/")
+		if b < 0 {
+			break
+		}
+		body = body[:a] + body[a+b+2:]
+	}
+	var parts []string
+	depth = 0
+	start := 0
+	for i := 0; i < len(body); i++ {
+		switch body[i] {
+		case '(':
+			depth++
+		case ')':
+			depth--
+		case ',':
+			if depth == 0 {
+				parts = append(parts, strings.TrimSpace(body[start:i]))
+				start = i + 1
+			}
+		}
+	}
+	parts = append(parts, strings.TrimSpace(body[start:]))
+	return parts, true
+}
+
+func schemaColumnDef(schema, table, col string) (string, bool) {
+	parts, ok := schemaTableParts(schema, table)
+	if !ok {
+		return "", false
+	}
+	for _, p := range parts {
+		f := strings.Fields(p)
+		if len(f) >= 2 && strings.EqualFold(f[0], col) {
+			return p, true
+		}
+	}
+	return "", false
+}
+
+func schemaHasUnique(schema, table, cols string) bool {
+	parts, ok := schemaTableParts(schema, table)
+	if !ok {
+		return false
+	}
+	want := map[string]bool{}
+	for _, c := range strings.Split(cols, ",") {
+		want[strings.ToLower(strings.TrimSpace(c))] = true
+	}
+	for _, p := range parts {
+		lp := strings.ToLower(strings.TrimSpace(p))
+		if !strings.HasPrefix(lp, "unique") {
+			continue
+		}
+		a, b := strings.Index(lp, "("), strings.LastIndex(lp, ")")
+		if a < 0 || b < a {
+			continue
+		}
+		got := map[string]bool{}
+		for _, c := range strings.Split(lp[a+1:b], ",") {
+			got[strings.TrimSpace(c)] = true
+		}
+		if len(got) == len(want) {
+			same := true
+			for c := range want {
+				if !got[c] {
+					same = false
+				}
+			}
+			if same {
+				return true
+			}
+		}
+	}
+	return false
+}
